@@ -15,6 +15,17 @@ TEXTS = ["hello", "hello world", ":colon start", "a:b c", "", "tab\there", "√ºn√
          ":)", "::", "a:b", "http://x.y:80/", ":"]
 KEYS = ["k1", "k2", "sesame"]
 
+
+def long_text(r):
+    """longer than the *LEN values the server advertises in 005 (1000; nicks 200) but inside the 2000-byte line limit;
+    multi-byte characters are placed so that byte offsets such as 1000 fall inside a character"""
+    n = r.choice([300, 999, 1000, 1001, 1203, 1500])
+    unit = r.choice(["a", "ab ", "\u017c", "x\u20ac", "word ", "\u017c\u017c "])
+    s = r.choice(["", "a", "ab", "t "])
+    while len(s.encode()) < n:
+        s += unit
+    return s
+
 DEFAULT_WEIGHTS = {
     "JOIN": 10, "PART": 5, "PRIVMSG": 8, "NOTICE": 3, "MODE_CH": 10, "MODE_U": 4, "KICK": 4, "TOPIC": 4,
     "INVITE": 3, "NICK": 4, "NAMES": 3, "WHO": 3, "WHOIS": 3, "WHOWAS": 1, "LIST": 2, "LUSERS": 2,
@@ -109,7 +120,7 @@ class Gen:
         # configured users
         self.cfg_users = {}
         if r.random() < (0.7 if self.profile == "reg" else 0.3):
-            pw = r.choice(["-", "+regpw"])
+            pw = r.choice(["-", "+regpw"] + (["+regpw"] if self.profile == "reg" else []))
             mask = r.choice(["-", "-", "+" + esc("*!*@127.0.0.1"), "+" + esc("reg!~reg@*"), "+" + esc("a*a")])
             lines.append("cfg user reg reg %s %s" % (pw, mask))
             self.cfg_users["reg"] = None if pw == "-" else "regpw"
@@ -158,11 +169,20 @@ class Gen:
     def line(self, c, text):
         self.ops.append("line %d %s" % (c, esc(text)))
 
+    def text(self, pool=None):
+        """a text parameter: mostly short, now and then very long (see long_text)"""
+        r = self.r
+        if self.profile not in ("fuzz", "pingpong") and r.random() < 0.035:
+            return long_text(r)
+        return r.choice(pool or TEXTS)
+
     def register(self, c, nick=None, shuffle=False):
         """emit the registration steps of connection c"""
         r = self.r
         nick = nick or r.choice(NICKS)
         user = r.choice(["reg"] if nick == "reg" and r.random() < 0.8 else ["u" + nick[:2], "reg", "x"])
+        if r.random() < 0.3 and nick in NICKS:
+            user = nick  # the common real-life case: user name = first nick (and so a substring of the source twice)
         steps = []
         pw = None
         if user in self.cfg_users and self.cfg_users[user]:
@@ -230,11 +250,110 @@ class Gen:
 
     # ------------------------------------------------------------------ scenes
     # short scripted interactions of two or three conditions that random choice rarely lines up
+    def new_conn(self):
+        if len(self.conns) >= 16:
+            return None
+        c = len(self.conns) + 1
+        self.conns[c] = {"live": True, "nick": None, "done": False}
+        self.ops.append("connect %d %s" % (c, self.r.choice(HOSTS)))
+        return c
+
+    def reg_scene(self):
+        """registration attempts that are refused half-way and then retried with another identity element: whatever
+        was checked for the first attempt must be checked again for the second"""
+        r = self.r
+        L = self.line
+        c = self.new_conn()
+        if c is None:
+            return
+        live = {x.get("nick") for x in self.conns.values() if x["live"] and x.get("nick")}
+        free = [x for x in NICKS if x not in live] or ["zz9"]
+        n1 = r.choice(free)
+        n2 = r.choice([x for x in free if x != n1] or ["zz8"])
+        pws = [p for p in (self.server_pw, self.cfg_users.get("reg")) if p] + ["wrong"]
+        k = r.choice(["overtaken", "overtaken", "taken_then_user", "pass_twice", "user_twice", "cap_mid"])
+        if r.random() < 0.8 and len(pws) > 1:
+            L(c, "PASS " + r.choice(pws))
+        if k == "overtaken":
+            # NICK accepted while free, somebody else registers it first, completion is refused (433), then the
+            # connection names another user (possibly a configured one with its own password) and another nick
+            L(c, "NICK " + n1)
+            d = self.new_conn()
+            if d is not None:
+                self.register(d, n1)
+            L(c, "USER %s 0 * :R" % r.choice(["x", "u1", n1]))
+            if r.random() < 0.3:
+                L(c, "PASS " + r.choice(pws))
+            L(c, "USER %s 0 * :R2" % r.choice(["reg", "reg", "x", n2]))
+            L(c, "NICK " + n2)
+        elif k == "taken_then_user":
+            taken = r.choice(sorted(live)) if live else n1
+            L(c, "NICK " + taken); L(c, "USER %s 0 * :R" % r.choice(["reg", "x"])); L(c, "NICK " + n2)
+            L(c, "USER %s 0 * :R" % r.choice(["reg", "x", "u2"]))
+        elif k == "pass_twice":
+            L(c, "PASS " + r.choice(pws)); L(c, "NICK " + n1); L(c, "PASS " + r.choice(pws))
+            L(c, "USER %s 0 * :R" % r.choice(["reg", "x"]))
+        elif k == "user_twice":
+            L(c, "USER %s 0 * :R" % r.choice(["reg", "x"])); L(c, "USER %s 0 * :R" % r.choice(["reg", "x", "y"]))
+            if r.random() < 0.5:
+                L(c, "PASS " + r.choice(pws))
+            L(c, "NICK " + n1)
+        elif k == "cap_mid":
+            L(c, r.choice(["CAP LS 302", "CAP REQ :multi-prefix", "CAP REQ :foo"])); L(c, "NICK " + n1)
+            L(c, "USER %s 0 * :R" % r.choice(["reg", "x"])); L(c, "PASS " + r.choice(pws))
+            L(c, r.choice(["CAP END", "CAP END", "CAP LIST"])); L(c, "CAP END")
+        # probes: who is registered now, and as what
+        L(c, "WHOIS " + n2); L(c, "WHOIS " + n1); L(c, "MODE " + n2); L(c, "LUSERS")
+        self.conns[c]["nick"] = n2 if k in ("overtaken", "taken_then_user") else n1
+        self.conns[c]["done"] = True
+
+    def long_scene(self, a, b, na, nb):
+        """parameters longer than the lengths advertised in 005 (nothing is cut or refused by this server)"""
+        r = self.r
+        L = self.line
+        k = r.choice(["topic", "chan", "key", "nick", "kick", "away", "real"])
+        ch = r.choice(["#s1", "#s2"])
+        if k == "topic":
+            t = long_text(r)
+            L(a, "JOIN " + ch); L(b, "JOIN " + ch); L(a, "TOPIC %s :%s" % (ch, t)); L(b, "TOPIC " + ch); L(b, "LIST " + ch)
+            L(b, "PART " + ch); L(b, "JOIN " + ch)
+        elif k == "chan":
+            lc = "#" + "c" * r.choice([49, 50, 64, 199, 200, 201, 999, 1000, 1001, 1200])
+            L(a, "JOIN " + lc); L(b, "JOIN " + lc); L(a, "PRIVMSG %s :hi" % lc); L(b, "NAMES " + lc); L(b, "PART " + lc)
+        elif k == "key":
+            lk = "k" * r.choice([23, 24, 32, 999, 1000, 1001])
+            L(a, "JOIN " + ch); L(a, "MODE %s +k %s" % (ch, lk)); L(b, "JOIN %s %s" % (ch, lk)); L(a, "MODE " + ch)
+            L(b, "PART " + ch); L(b, "JOIN %s %s" % (ch, lk[:-1]))
+        elif k == "nick":
+            ln = "n" * r.choice([9, 10, 30, 31, 199, 200, 201, 260])
+            L(b, "NICK " + ln); L(a, "WHOIS " + ln); L(a, "PRIVMSG %s :hi" % ln); L(b, "NICK " + nb)
+        elif k == "kick":
+            L(a, "JOIN " + ch); L(b, "JOIN " + ch); L(a, "KICK %s %s :%s" % (ch, nb, long_text(r))); L(b, "JOIN " + ch)
+            L(b, "PART %s :%s" % (ch, long_text(r)))
+        elif k == "away":
+            L(b, "AWAY :" + long_text(r)); L(a, "PRIVMSG %s :are you there" % nb); L(a, "WHOIS " + nb); L(a, "USERHOST " + nb)
+            L(b, "AWAY")
+        elif k == "real":
+            c = self.new_conn()
+            if c is not None:
+                live = {x.get("nick") for x in self.conns.values() if x["live"] and x.get("nick")}
+                n1 = r.choice([x for x in NICKS if x not in live] or ["zz9"])
+                if self.server_pw:
+                    L(c, "PASS " + self.server_pw)
+                L(c, "NICK " + n1); L(c, "USER %s 0 * :%s" % ("u" * r.choice([1, 12, 64, 300]), long_text(r)))
+                L(a, "WHOIS " + n1); L(a, "WHO " + n1)
+                self.conns[c]["nick"] = n1
+                self.conns[c]["done"] = True
+
     def scene(self):
         r = self.r
+        if r.random() < (0.55 if self.profile == "reg" else 0.06):
+            return self.reg_scene()
         regs = [c for c, x in self.conns.items() if x["live"] and x["done"] and x.get("nick")]
         if len(regs) < 2:
             return
+        if r.random() < 0.08:
+            return self.long_scene(regs[0], regs[1], self.conns[regs[0]]["nick"], self.conns[regs[1]]["nick"])
         r.shuffle(regs)
         a, b = regs[0], regs[1]
         c3 = regs[2] if len(regs) > 2 else None
@@ -426,7 +545,7 @@ class Gen:
             chans = [self.pick_chan() for _ in range(r.choice([1, 1, 2]))]
             s = "PART " + ",".join(chans)
             if r.random() < 0.4:
-                s += " :" + r.choice(TEXTS)
+                s += " :" + self.text()
             self.line(c, s)
         elif v in ("PRIVMSG", "NOTICE"):
             n = r.choice([1, 1, 1, 2, 3, 4])
@@ -442,7 +561,7 @@ class Gen:
                     ts.append(self.pick_nick(0.85))
             if r.random() < 0.1 and ts:
                 ts.append(ts[0])
-            txt = r.choice(TEXTS)
+            txt = self.text()
             self.line(c, "%s %s :%s" % (v, ",".join(ts), txt))
         elif v == "MODE_CH":
             ch = self.cur_chan or self.pick_chan()
@@ -477,12 +596,12 @@ class Gen:
                         us[2] = us[0]
             s = "KICK %s %s" % (kch, ",".join(us))
             if r.random() < 0.5:
-                s += " :" + r.choice(TEXTS)
+                s += " :" + self.text()
             self.line(c, s)
         elif v == "TOPIC":
             s = "TOPIC " + (self.cur_chan or self.pick_chan())
             if r.random() < 0.7:
-                s += " :" + r.choice(TEXTS)
+                s += " :" + self.text()
             self.line(c, s)
         elif v == "INVITE":
             self.line(c, "INVITE %s %s" % (self.pick_nick(0.85), self.cur_chan or self.pick_chan()))
@@ -540,7 +659,7 @@ class Gen:
         elif v == "USERHOST":
             self.line(c, "USERHOST " + " ".join(self.pick_nick(0.6) for _ in range(r.choice([1, 2, 4]))))
         elif v == "AWAY":
-            self.line(c, "AWAY" if r.random() < 0.4 else "AWAY :" + r.choice(TEXTS))
+            self.line(c, "AWAY" if r.random() < 0.4 else "AWAY :" + self.text())
         elif v == "OPER":
             x = r.random()
             if x < 0.7 and self.opers:
@@ -555,11 +674,11 @@ class Gen:
         elif v == "SQUIT":
             self.line(c, "SQUIT %s :gone" % r.choice(["irc.test", "other.srv"]))
         elif v == "WALLOPS":
-            self.line(c, "WALLOPS :" + r.choice(TEXTS))
+            self.line(c, "WALLOPS :" + self.text())
         elif v == "STATS":
             self.line(c, "STATS " + r.choice(["u", "m", "m", "o", "c", "x", "uu"]))
         elif v == "QUIT":
-            self.line(c, "QUIT" if r.random() < 0.5 else "QUIT :bye")
+            self.line(c, "QUIT" if r.random() < 0.5 else "QUIT :" + self.text(["bye", "bye bye", ":)"]))
             me["live"] = False
         elif v == "EOF":
             self.ops.append("eof %d" % c)
